@@ -589,15 +589,18 @@ def discrete_SIR(G, test_transmission=_simple_test_transmission_, args=(), test_
     
     for u in initial_infecteds:
         susceptible[u] = False
+    nR = 0
     if initial_recovereds is not None:
         for u in initial_recovereds:
             susceptible[u] = False
+            nR += 1
+    S[0] -= nR #initially recovered nodes are not susceptible
+    R[0] = nR
         
     infecteds = set(initial_infecteds)
-    totR= 0
+    totR= nR
     nI = len(initial_infecteds)
-    nR = 0
-    nS = N - nI
+    nS = N - nI - nR
     
     while infecteds and t[-1]<tmax:
         new_infecteds = set()
